@@ -1036,6 +1036,153 @@ func c14Hammer(st *c14State, shared [][]probe.Obj, G, procs, iters int, tag stri
 	}
 }
 
+// hammerOp is one (version, method) pair prepared for tight-loop calling: call(i) performs the method on the i-th hot
+// object and reports a mismatch with the quiescent value.
+type hammerOp struct {
+	name string
+	ver  int
+	n    int
+	call func(i int) (ok bool, exp, obs, src string)
+}
+
+func mkHammerOps(r *gen.Rand, shared [][]probe.Obj) []hammerOp {
+	var out []hammerOp
+	for vi, api := range probe.APIs {
+		api := api
+		if len(shared[vi]) < 4 {
+			continue
+		}
+		var objs []probe.Obj
+		seen := map[string]bool{}
+		for tries := 0; tries < 64 && len(objs) < 4; tries++ {
+			o := shared[vi][r.Intn(len(shared[vi]))]
+			vec, _ := probe.SafeVector(o)
+			if !seen[vec] {
+				seen[vec] = true
+				objs = append(objs, o)
+			}
+		}
+		if len(objs) < 2 {
+			continue
+		}
+		srcs := make([]string, len(objs))
+		for i, o := range objs {
+			vec, _ := probe.SafeVector(o)
+			srcs[i] = strings.Clone(vec)
+		}
+		// an input that is rejected (the library's error paths run concurrently with everything else, too)
+		badSrc := srcs[0] + "/" + api.Ver.Metrics[0].Abv + ":" + api.Ver.Metrics[0].Values[0]
+		_, badErr, _ := api.SafeParse(badSrc)
+		badWant := api.Classify(badErr)
+		for op := range api.ScoreNames {
+			op := op
+			want := make([]float64, len(objs))
+			for i, o := range objs {
+				want[i], _ = probe.SafeScore(o, op)
+			}
+			out = append(out, hammerOp{api.ScoreNames[op], vi, len(objs), func(i int) (bool, string, string, string) {
+				f, p := probe.SafeScore(objs[i], op)
+				if p != nil || f != want[i] {
+					return false, fstr(want[i]), fmt.Sprint(f, p), srcs[i]
+				}
+				return true, "", "", ""
+			}})
+		}
+		out = append(out, hammerOp{"Vector", vi, len(objs), func(i int) (bool, string, string, string) {
+			s, p := probe.SafeVector(objs[i])
+			if p != nil || s != srcs[i] {
+				return false, srcs[i], fmt.Sprint(s, p), srcs[i]
+			}
+			return true, "", "", ""
+		}})
+		wantB := make([]string, len(objs))
+		for i := range objs {
+			if po, err, _ := api.SafeParse(srcs[i]); err == nil && po != nil {
+				wantB[i] = po.Bytes()
+			}
+		}
+		out = append(out, hammerOp{"ParseVector", vi, len(objs), func(i int) (bool, string, string, string) {
+			po, err, p := api.SafeParse(srcs[i])
+			if p != nil || err != nil || po == nil || po.Bytes() != wantB[i] {
+				return false, wantB[i], fmt.Sprint(po, err, p), srcs[i]
+			}
+			return true, "", "", ""
+		}})
+		out = append(out, hammerOp{"ParseVector(rejected)", vi, 1, func(i int) (bool, string, string, string) {
+			po, err, p := api.SafeParse(badSrc)
+			if p != nil || err == nil || po != nil || api.Classify(err) != badWant {
+				return false, badWant.String(), fmt.Sprint(po, err, p), badSrc
+			}
+			return true, "", "", ""
+		}})
+		out = append(out, hammerOp{"Set+Get on a private copy", vi, len(objs), func(i int) (bool, string, string, string) {
+			c := objs[i].Clone()
+			me := api.Ver.Metrics[i%api.Ver.N()]
+			val := me.Values[len(me.Values)-1]
+			err, p := probe.SafeSet(c, me.Abv, val)
+			g, _, _ := probe.SafeGet(c, me.Abv)
+			if p != nil || err != nil || g != val {
+				return false, me.Abv + "=" + val, fmt.Sprint(g, err, p), srcs[i]
+			}
+			return true, "", "", ""
+		}})
+	}
+	return out
+}
+
+// c14HammerPairs: like the hammer phases, but half of the goroutines call method A while the other half call a
+// DIFFERENT method B (possibly of another CVSS version): state shared between two methods or two packages is only
+// contended when both run at the same moment. Every ordered pair is too many; each repetition draws a seeded set of
+// pairs, biased towards same-version pairs and towards pairs that contain ParseVector or Vector.
+func c14HammerPairs(st *c14State, shared [][]probe.Obj, G, procs, iters, npairs int, tag string) {
+	prev := runtime.GOMAXPROCS(procs)
+	defer runtime.GOMAXPROCS(prev)
+	r := gen.New(st.seed, "C14", "hammer-pairs", tag)
+	ops := mkHammerOps(r, shared)
+	if len(ops) < 2 {
+		return
+	}
+	for k := 0; k < npairs; k++ {
+		a := ops[r.Intn(len(ops))]
+		b := ops[r.Intn(len(ops))]
+		for tries := 0; tries < 8 && (a.name == b.name && a.ver == b.ver || (r.Intn(3) != 0 && a.ver != b.ver)); tries++ {
+			b = ops[r.Intn(len(ops))]
+		}
+		var wg sync.WaitGroup
+		var bad atomic.Int64
+		start := make(chan struct{})
+		for g := 0; g < G; g++ {
+			wg.Add(1)
+			go func(g int) {
+				defer wg.Done()
+				op := a
+				if g&1 == 1 {
+					op = b
+				}
+				<-start
+				for it := 0; it < iters; it++ {
+					if ok, exp, obs, src := op.call((it + g) % op.n); !ok {
+						if bad.Add(1) <= 3 {
+							st.mismatch(Violation{Kind: "result-depends-on-concurrency-or-history", Version: spec.Versions[op.ver].Name, Steps: append(parseSteps(src), Step{Op: "score"}), Expected: op.name + " = " + exp, Observed: obs,
+								Detail: map[string]any{"workload": "hammer-pairs", "method": op.name, "concurrent_with": fmt.Sprintf("%s (v%s)", map[bool]hammerOp{true: a, false: b}[g&1 == 1].name, spec.Versions[map[bool]hammerOp{true: a, false: b}[g&1 == 1].ver].Name), "goroutines": G, "gomaxprocs": procs, "note": "needs real parallelism: the replay re-executes the call alone"}})
+						}
+						return
+					}
+				}
+			}(g)
+		}
+		close(start)
+		wg.Wait()
+		st.events.Add(int64(G) * int64(iters))
+		st.res.Counters["hammer_pair_calls"] += int64(G) * int64(iters)
+		st.res.Counters["hammer_pair_phases"]++
+		st.mu.Lock()
+		key := fmt.Sprintf("v%s %s || v%s %s", spec.Versions[a.ver].Name, a.name, spec.Versions[b.ver].Name, b.name)
+		st.keysBy["pair:"+key] |= 3
+		st.mu.Unlock()
+	}
+}
+
 // C14Sig prints the signature of one ParseVector call made as the FIRST call of a fresh process.
 func C14Sig(ver int, hexInput string) {
 	if hexInput == "-" {
@@ -1420,6 +1567,7 @@ func C14Child(mode, tier string, seed int64) {
 			}
 			pc := [][2]int{{16, 16}, {8, 4}, {4, 2}, {32, 16}, {3, 3}}[rep%5]
 			c14Hammer(st, shared, pc[0], pc[1], iters, fmt.Sprintf("%s-rep%d", mode, rep))
+			c14HammerPairs(st, shared, pc[0], pc[1], iters/2+100, 24, fmt.Sprintf("%s-rep%d", mode, rep))
 		}
 		for _, cfg := range [][2]int{{4, 2}, {16, 16}, {64, 16}, {16, 2}, {8, 1}} {
 			ops := 24000 / scale / cfg[0] * 4
@@ -1715,7 +1863,7 @@ func CheckC14(c *Ctx) {
 		totalEvents += res.Events + coldEvents
 		distinct += res.ContextPairs
 		summary[b.mode] = map[string]any{"events": res.Events, "distinct_keys": res.Keys, "keys_seen_by_2plus_goroutines": res.KeysMulti, "distinct_(previous,current)_context_pairs": res.ContextPairs,
-			"yields_taken": res.Yields, "sibling_singles": res.Counters["sibling_singles"], "aliased_input_calls": res.Counters["aliased_input_calls"], "period_probe_calls": res.Counters["period_probe_calls"], "poisoned_errors": res.Counters["poisoned_errors"], "poisoned_error_fields": res.Counters["poisoned_fields"], "sibling_pairs": res.Counters["sibling_pairs"], "sibling_triples": res.Counters["sibling_triples"], "hammer_calls": res.Counters["hammer_calls"], "hammer_phases": res.Counters["hammer_phases"], "strings_reverified": res.StringsRecheck, "sequences": res.Sequences, "pool_reuse_sequences_v2": res.PoolReuse, "race_report_blocks": raw, "race_reports_deduplicated": len(dedup),
+			"yields_taken": res.Yields, "sibling_singles": res.Counters["sibling_singles"], "aliased_input_calls": res.Counters["aliased_input_calls"], "period_probe_calls": res.Counters["period_probe_calls"], "poisoned_errors": res.Counters["poisoned_errors"], "poisoned_error_fields": res.Counters["poisoned_fields"], "sibling_pairs": res.Counters["sibling_pairs"], "sibling_triples": res.Counters["sibling_triples"], "hammer_calls": res.Counters["hammer_calls"], "hammer_phases": res.Counters["hammer_phases"], "hammer_pair_calls": res.Counters["hammer_pair_calls"], "hammer_pair_phases": res.Counters["hammer_pair_phases"], "strings_reverified": res.StringsRecheck, "sequences": res.Sequences, "pool_reuse_sequences_v2": res.PoolReuse, "race_report_blocks": raw, "race_reports_deduplicated": len(dedup),
 			"configurations": res.Configs, "wall_s": time.Since(t0).Seconds(), "inputs": res.Counters["inputs"], "fresh_process_baselines": res.Counters["fresh_process_baselines"],
 			"cold_start_processes": coldProcs, "cold_start_first_use_calls": coldEvents}
 		if b.mode == "race-instr" {
@@ -1762,7 +1910,7 @@ func CheckC14(c *Ctx) {
 		c.Extra["yield_points_inserted"] = s
 	}
 	c.SetReport(Report{
-		Rule:        "four builds of the CURRENT tree (plain; -race; -race after the AST yield-point pass that inserts seeded Gosched/sleep calls at loop heads and after call statements of go-cvss; -asan in thorough). In each: (1) baselines of ~40 inputs per version computed after forced double GC in forward and reverse order (must agree with each other, with the grammar/canonical-form oracles and -- plain build -- with the same call made as the first call of a fresh process; likewise every optional metric as the sole optional metric of a vector, each value, each in its own fresh process); (2) sequential histories hostile to pooled scratch buffers under GOMAXPROCS(1)+GC off: ALL ordered pairs per version, all triples for v2 (1/7 for others), random sequences of 2-50 calls across versions -- every result must equal its baseline; (3) goroutines {4,8,16,64} x GOMAXPROCS {1,2,16} hammering the small shared input set, plus a hot-keys phase per repetition over only 2-4 inputs (parse, everything observable of shared read-only objects, Set on local copies, parse-mutate-parse, Rating) with results compared to baselines; (0) cold concurrent starts: short-lived processes in which NO go-cvss call has happened yet release 8-24 goroutines together, round by round, on the same parse + score + Vector call (550 first-use rounds each), judged against the spec oracles; (3b) hammer phases: G goroutines calling ONE method on the same 4 objects in a tight loop with nothing of the harness in between (one phase per scoring method, Vector and ParseVector, per version and repetition; G x GOMAXPROCS in {16x16, 8x4, 4x2, 32x16, 3x3}), each result compared with the quiescent value; (2b) sibling histories (plain, asan): for 3 (thorough 12) background objects per version EVERY object differing from it in exactly one or exactly two metrics (one background, thorough 3: also exactly three), in the histories unrelated,A / A,B / B,A -- results must equal the reference after the unrelated call; (2d) period probes (plain, asan): a vector with every optional metric defined, d-1 calls on a base-only vector, the first vector again, for d in {255,256,257,65535,65536,65537} on one P with GC off -- every result must equal its reference (generation counters that wrap); (2e) poisoned errors: every rejected input is parsed, the exported fields of the returned error are overwritten by the caller (reflection) and the input is parsed again, likewise Get/Set on unknown abbreviations -- the second result must equal the baseline; (2c) aliased inputs (all builds but the yield pass): all ordered pairs per version with both inputs written into ONE reused buffer and passed as views of it, and as fresh heap copies dropped at once with a GC every 8 calls -- results must equal the baselines; (4) every Vector() string kept next to an immediate clone and re-compared later, forced GC every 10k events; (5) elapsed time: one plain-build process goes idle and wakes at process ages 0.5/1.5/3.5/7.5/15.5/47 s (thorough: also 110/300/910 s), each time making every alphabet call in a rotated order, re-reading the objects parsed at the start and re-setting every metric of clones to its own value -- all must equal the baselines (time is the stimulus, equality the verdict). Race reports are counted from the GORACE log (never from the exit code) and de-duplicated by first-frame pair. evaluations = events; distinct = distinct (previous call, current call) context pairs summed over builds",
+		Rule:        "four builds of the CURRENT tree (plain; -race; -race after the AST yield-point pass that inserts seeded Gosched/sleep calls at loop heads and after call statements of go-cvss; -asan in thorough). In each: (1) baselines of ~40 inputs per version computed after forced double GC in forward and reverse order (must agree with each other, with the grammar/canonical-form oracles and -- plain build -- with the same call made as the first call of a fresh process; likewise every optional metric as the sole optional metric of a vector, each value, each in its own fresh process); (2) sequential histories hostile to pooled scratch buffers under GOMAXPROCS(1)+GC off: ALL ordered pairs per version, all triples for v2 (1/7 for others), random sequences of 2-50 calls across versions -- every result must equal its baseline; (3) goroutines {4,8,16,64} x GOMAXPROCS {1,2,16} hammering the small shared input set, plus a hot-keys phase per repetition over only 2-4 inputs (parse, everything observable of shared read-only objects, Set on local copies, parse-mutate-parse, Rating) with results compared to baselines; (0) cold concurrent starts: short-lived processes in which NO go-cvss call has happened yet release 8-24 goroutines together, round by round, on the same parse + score + Vector call (550 first-use rounds each), judged against the spec oracles; (3b) hammer phases: G goroutines calling ONE method on the same 4 objects in a tight loop with nothing of the harness in between (one phase per scoring method, Vector and ParseVector, per version and repetition; G x GOMAXPROCS in {16x16, 8x4, 4x2, 32x16, 3x3}), each result compared with the quiescent value; pair phases: half of the goroutines call method A, the other half a different method B (scores, Vector, ParseVector of valid and of rejected input, Set+Get on a private copy; same or another CVSS version), 24 seeded pairs per repetition; (2b) sibling histories (plain, asan): for 3 (thorough 12) background objects per version EVERY object differing from it in exactly one or exactly two metrics (one background, thorough 3: also exactly three), in the histories unrelated,A / A,B / B,A -- results must equal the reference after the unrelated call; (2d) period probes (plain, asan): a vector with every optional metric defined, d-1 calls on a base-only vector, the first vector again, for d in {255,256,257,65535,65536,65537} on one P with GC off -- every result must equal its reference (generation counters that wrap); (2e) poisoned errors: every rejected input is parsed, the exported fields of the returned error are overwritten by the caller (reflection) and the input is parsed again, likewise Get/Set on unknown abbreviations -- the second result must equal the baseline; (2c) aliased inputs (all builds but the yield pass): all ordered pairs per version with both inputs written into ONE reused buffer and passed as views of it, and as fresh heap copies dropped at once with a GC every 8 calls -- results must equal the baselines; (4) every Vector() string kept next to an immediate clone and re-compared later, forced GC every 10k events; (5) elapsed time: one plain-build process goes idle and wakes at process ages 0.5/1.5/3.5/7.5/15.5/47 s (thorough: also 110/300/910 s), each time making every alphabet call in a rotated order, re-reading the objects parsed at the start and re-setting every metric of clones to its own value -- all must equal the baselines (time is the stimulus, equality the verdict). Race reports are counted from the GORACE log (never from the exit code) and de-duplicated by first-frame pair. evaluations = events; distinct = distinct (previous call, current call) context pairs summed over builds",
 		DistinctN:   distinct,
 		Assumptions: []string{"the race detector sees only executed pairs of accesses; interleavings are explored, not enumerated", "dependence on elapsed time is observed only up to the idle gaps lived through (31.5 s quick, 10 min thorough); dependence on the environment (variables, files, clock date) is not driven", "in the plain build every baseline is also recomputed as the first call of a freshly started process; the sanitizer builds rely on the double-GC baseline"},
 	})
